@@ -163,7 +163,7 @@ func (g *gen) sizedExpr(d, i int) string {
 	}
 }
 
-var hostileStrings = []string{`"it's \"quoted\""`, `"back\\slash"`, `"/* not a comment */"`, `"// neither"`, `"a - -b"`, `"tab\there"`, `"new\nline"`, `"function var return"`, "`raw \\n \"q\" // x`", `"\x00nul"`, `"</script>"`, `"\u2028\u2029"`, `"é世😀"`, `"$"`, `"\b"`, `"a  b   c"`}
+var hostileStrings = []string{`"it's \"quoted\""`, `"back\\slash"`, `"/* not a comment */"`, `"// neither"`, `"a - -b"`, `"tab\there"`, `"new\nline"`, `"function var return"`, "`raw \\n \"q\" // x`", `"\x00nul"`, `"</script>"`, `"\u2028\u2029"`, `"é世😀"`, `"$"`, `"\b"`, `"a  b   c"`, `"C:\\"`, `"\\"`, `"odd\\\\\\"`, `"q\"uote : x"`, `" ;  } { "`, `"+ +  - -"`}
 
 func (g *gen) strExpr(d int) string {
 	if d <= 0 || g.ir(0, 9, "sleaf2") < 4 {
@@ -267,7 +267,14 @@ func (g *gen) stmt() {
 		g.w("i0, i1 = lim(i0), lim(i1)")
 	case 4:
 		g.kind("string-assign")
-		g.w("%s = %s", g.pick("svar", "s0", "s1", "p.b"), g.strExpr(3))
+		if g.f.Hostile && g.ir(0, 2, "torture") == 0 {
+			// several awkward literals next to each other in one function body
+			g.kind("string-torture")
+			h := func() string { return rapid.SampledFrom(hostileStrings).Draw(g.rt, "hostile3") }
+			g.w("%s = cut(%s + %s + %s + %s)", g.pick("svar", "s0", "s1", "p.b"), h(), h(), h(), h())
+		} else {
+			g.w("%s = %s", g.pick("svar", "s0", "s1", "p.b"), g.strExpr(3))
+		}
 	case 5:
 		g.kind("bool-assign")
 		g.w("%s = %s", g.pick("bvar", "b0", "b1"), g.boolExpr(3))
@@ -338,16 +345,33 @@ func (g *gen) stmt() {
 		}
 		g.labels = append(g.labels, lab)
 		n := g.ir(1, 4, "forn")
+		// the loop variable may be captured by a closure (one variable per loop in Go 1.20):
+		// the closure and the loop must keep seeing the same variable across suspensions
+		capture := g.ir(0, 2, "loopcapture") == 0
+		tail := ""
 		switch g.ir(0, 3, "forkind") {
 		case 0:
-			g.w("for k := 0; k < %d; k++ {", n)
+			g.w("for k := 0; k < %d; k++ {", n+1)
 			g.indent++
 			g.w("i3 = lim(i3 + k)")
+			if capture {
+				g.kind("loopvar-capture")
+				g.w("getk := func() int { return k }")
+				tail = "i3 = lim(i3 + getk()*3 + k)"
+				if g.ir(0, 2, "loopbump") == 0 {
+					tail += "\n" + ind(g) + "if getk() == 1 {\n" + ind(g) + "\tk++\n" + ind(g) + "}"
+				}
+			}
 		case 1:
 			g.kind("range-slice")
 			g.w("for k, v := range sl[:ix(%d, len(sl)+1)] {", n)
 			g.indent++
 			g.w("i3 = lim(i3 + k*v)")
+			if capture {
+				g.kind("loopvar-capture")
+				g.w("getkv := func() int { return k*10 + v }")
+				tail = "i3 = lim(i3 + getkv())"
+			}
 		case 2:
 			g.kind("range-string")
 			g.w("for k, r := range sub(s0, %d) {", n)
@@ -358,8 +382,16 @@ func (g *gen) stmt() {
 			g.w("for c := %d; c > 0; c-- {", n)
 			g.indent++
 			g.w("i2 = lim(i2 + c)")
+			if capture {
+				g.kind("loopvar-capture")
+				g.w("pc := &c")
+				tail = "i2 = lim(i2 + *pc*5 + c)"
+			}
 		}
 		g.block(g.ir(1, 3, "forb"))
+		if tail != "" {
+			g.w("%s", tail)
+		}
 		if g.ir(0, 2, "brk") == 0 {
 			g.loopExit()
 		}
